@@ -1,6 +1,10 @@
 """C04: the status normalisation of `Command.handle`, read from the current source with `ast`:
 the statement `return min(max(int(status_code), 1), 255)` becomes a Lean function of the integer
-`int(status_code)`, and the guard before it (`if not status_code: return 0`) is checked to be there."""
+`int(status_code)`, and the guard before it (`if not status_code: return 0`) is checked to be there.
+
+Strict: the whole body must be `try: <var> = <call> except ...`, the guard, the return - or the guard and the
+return in a helper method called as `return self.<helper>(<var>)`; named module/class constants are read
+through.  Anything else between the handler call and the return is not read (Untranslatable)."""
 import ast
 
 
@@ -9,9 +13,10 @@ def _minmax(api, e, var, rel):
     if isinstance(e, ast.Constant) and isinstance(e.value, int) and not isinstance(e.value, bool):
         return "(%d : Int)" % e.value
     if isinstance(e, ast.Call) and isinstance(e.func, ast.Name) and e.func.id == "int" and len(e.args) == 1 \
-            and isinstance(e.args[0], ast.Name) and e.args[0].id == var:
+            and not e.keywords and isinstance(e.args[0], ast.Name) and e.args[0].id == var:
         return "n"
-    if isinstance(e, ast.Call) and isinstance(e.func, ast.Name) and e.func.id in ("min", "max") and len(e.args) == 2:
+    if isinstance(e, ast.Call) and isinstance(e.func, ast.Name) and e.func.id in ("min", "max") and len(e.args) == 2 \
+            and not e.keywords:
         return "(%s %s %s)" % (e.func.id, _minmax(api, e.args[0], var, rel), _minmax(api, e.args[1], var, rel))
     if isinstance(e, ast.BinOp) and isinstance(e.op, ast.Mod):
         return "(%s %% %s)" % (_minmax(api, e.left, var, rel), _minmax(api, e.right, var, rel))
@@ -19,23 +24,62 @@ def _minmax(api, e, var, rel):
                                % (rel, getattr(e, "lineno", "?"), ast.dump(e)[:150]))
 
 
+def _is_zero_guard(st, var):
+    """`if not <var>: return 0`"""
+    return (isinstance(st, ast.If) and isinstance(st.test, ast.UnaryOp) and isinstance(st.test.op, ast.Not)
+            and isinstance(st.test.operand, ast.Name) and st.test.operand.id == var and len(st.body) == 1
+            and isinstance(st.body[0], ast.Return) and isinstance(st.body[0].value, ast.Constant)
+            and st.body[0].value.value == 0 and not isinstance(st.body[0].value.value, bool) and not st.orelse)
+
+
+def _tail(api, stmts, var, rel, where):
+    """the statements after the handler result is in `var`: exactly the guard and the final return"""
+    if not (len(stmts) == 2 and _is_zero_guard(stmts[0], var) and isinstance(stmts[1], ast.Return)
+            and stmts[1].value is not None):
+        st = stmts[0] if stmts else None
+        raise api.P.Untranslatable("%s:%s: %s: expected exactly `if not %s: return 0` and `return <status expression>` "
+                                   "after the handler call" % (rel, getattr(st, "lineno", "?"), where, var))
+    return stmts[1]
+
+
 def generate(api):
+    P = api.P
     tree, rel = api.parse("api/command/command.py")
-    fn = api.P.find_function(tree, "Command", "handle", rel)
-    body = [s for s in fn.body if not (isinstance(s, ast.Expr) and isinstance(s.value, ast.Constant))]
-    if len(body) < 3 or not isinstance(body[-1], ast.Return):
-        raise api.P.Untranslatable("%s: Command.handle does not end in a return" % rel)
-    guard = body[-2]
-    ok = (isinstance(guard, ast.If) and isinstance(guard.test, ast.UnaryOp) and isinstance(guard.test.op, ast.Not)
-          and isinstance(guard.test.operand, ast.Name) and len(guard.body) == 1 and isinstance(guard.body[0], ast.Return)
-          and isinstance(guard.body[0].value, ast.Constant) and guard.body[0].value.value == 0 and not guard.orelse)
+    fn = P.inline_literals(P.find_function(tree, "Command", "handle", rel), tree, "Command")
+    body = P.strip_doc(fn.body)
+    # strict shape: `try: <var> = <call>` (its handlers only run when there is no handler result), then either the
+    # guard and the final return, or `return self.<helper>(<var>)` whose whole body is the guard and the return
+    # (one level of read-through).  Nothing else may stand between the call and the return.
+    first = body[0] if body else None
+    ok = (isinstance(first, ast.Try) and not first.orelse and not first.finalbody and len(first.body) == 1
+          and isinstance(first.body[0], ast.Assign) and len(first.body[0].targets) == 1
+          and isinstance(first.body[0].targets[0], ast.Name) and isinstance(first.body[0].value, ast.Call))
     if not ok:
-        raise api.P.Untranslatable("%s:%s: expected `if not status_code: return 0` before the final return"
-                                   % (rel, guard.lineno))
-    var = guard.test.operand.id
-    expr = _minmax(api, body[-1].value, var, rel)
+        raise P.Untranslatable("%s:%d: Command.handle does not start with `try: <var> = <handler call>` / except ..."
+                               % (rel, getattr(first, "lineno", fn.lineno)))
+    var = first.body[0].targets[0].id
+    rest = body[1:]
+    ret = None
+    if len(rest) == 1 and isinstance(rest[0], ast.Return) and isinstance(rest[0].value, ast.Call):
+        call = rest[0].value
+        f = call.func
+        if (isinstance(f, ast.Attribute) and isinstance(f.value, ast.Name) and f.value.id in ("self", "Command")
+                and len(call.args) == 1 and not call.keywords and isinstance(call.args[0], ast.Name)
+                and call.args[0].id == var):
+            helper = P.inline_literals(P.find_function(tree, "Command", f.attr, rel), tree, "Command")
+            static = any(isinstance(d, ast.Name) and d.id == "staticmethod" for d in helper.decorator_list)
+            params = [a.arg for a in helper.args.args]
+            a = helper.args
+            if (a.vararg or a.kwarg or a.kwonlyargs or a.posonlyargs or len(params) != (1 if static else 2)
+                    or (f.value.id == "Command" and not static)):
+                raise P.Untranslatable("%s:%d: Command.%s: unexpected parameters" % (rel, helper.lineno, f.attr))
+            var = params[-1]
+            ret = _tail(api, P.strip_doc(helper.body), var, rel, "Command.%s" % f.attr)
+    if ret is None:
+        ret = _tail(api, rest, var, rel, "Command.handle")
+    expr = _minmax(api, ret.value, var, rel)
     text = (api.HEADER + "namespace Clikit.Gen.C04\n\n"
             "/-- `Command.handle`, last statement: the status for a truthy handler result whose `int()` is `n`\n"
             "(line %d of %s) -/\n"
-            "def clampStatus (n : Int) : Int := %s\n\nend Clikit.Gen.C04\n" % (body[-1].lineno, rel, expr))
+            "def clampStatus (n : Int) : Int := %s\n\nend Clikit.Gen.C04\n" % (ret.lineno, rel, expr))
     return {"C04.lean": text}
